@@ -25,7 +25,7 @@ ASSUMPTIONS = [
 ]
 ALNUM = string.ascii_letters + string.digits
 BOUNDS = {
-    "quick": {"alnum": ALNUM[:10] + ALNUM[26:36] + ALNUM[52:62], "netbios_len": 2, "short_uri_len": 5},
+    "quick": {"alnum": ALNUM[:18] + ALNUM[26:44] + ALNUM[52:62], "netbios_len": 2, "short_uri_len": 5},
     "thorough": {"alnum": ALNUM, "netbios_len": 2, "short_uri_len": 6},
 }
 
